@@ -70,9 +70,9 @@ func verifC11(kind int, cycles int) {
 	}
 }
 
-func verifH_C11_ShardedMap()       { verifC11(0, 1) }
-func verifH_C11_SyncMap()          { verifC11(1, 1) }
-func verifH_C11_ShardedMapOf()     { verifC11(2, 1) }
-func verifH_C11_ShardedMap_2cyc()  { verifC11(0, 2) }
-func verifH_C11_SyncMap_2cyc()     { verifC11(1, 2) }
+func verifH_C11_ShardedMap()        { verifC11(0, 1) }
+func verifH_C11_SyncMap()           { verifC11(1, 1) }
+func verifH_C11_ShardedMapOf()      { verifC11(2, 1) }
+func verifH_C11_ShardedMap_2cyc()   { verifC11(0, 2) }
+func verifH_C11_SyncMap_2cyc()      { verifC11(1, 2) }
 func verifH_C11_ShardedMapOf_2cyc() { verifC11(2, 2) }
